@@ -41,6 +41,30 @@ theorem guarded_api_quiescent (u : ApiUse) (hu : u ∈ apiTable) (N : Nat) (fail
     simpa using this
   exact apiRun_guarded u.style hg N fail
 
+/-- (T) `__exit__` of no progress class can return a truthy value (read from
+    `BaseProgress.__exit__` and the `exit()` methods), so a `with progress(...)` block never
+    swallows the exception raised inside it. -/
+theorem exit_never_suppresses :
+    exitReturn.map (fun k => k.1) = progressKinds.map (fun k => k.1) ∧
+    exitReturn.all (fun k => !(dunderExit.value k.2).mayBeTruthy) = true := by decide
+
+/-- The failure reaches the caller: for every API of the table, every progress type, every
+    `N` and every failing work item `k < N`, the exception propagates out of the API call
+    (the skeleton "whatever fails, exit is called" is not bought by hiding the failure). -/
+theorem failure_reaches_caller (u : ApiUse) (_hu : u ∈ apiTable) (kind : String × RetVal)
+    (hk : kind ∈ exitReturn) (N k : Nat) (hkN : k < N) :
+    apiPropagates u.style N (some k) (dunderExit.value kind.2).mayBeTruthy = true := by
+  have h := List.all_eq_true.1 exit_never_suppresses.2 kind hk
+  have hf : (dunderExit.value kind.2).mayBeTruthy = false := by simpa using h
+  rw [hf]
+  exact apiPropagates_of_falsy u.style N k hkN
+
+/-- Why it is an obligation: were `__exit__` truthy, every `with`-guarded API would return
+    normally from any failure. -/
+theorem truthy_exit_swallows (N : Nat) (fail : Option Nat) :
+    apiPropagates .withStmt N fail true = false :=
+  apiPropagates_truthy_with N fail
+
 /-- Why the guard is needed: with a bare `enter() ... exit()` pair a failing work item `k < N`
     means `exit` is never called (so the armed timer of a `ProgressBar` stays pending). -/
 theorem unguarded_failure_skips_exit (N k : Nat) (hk : k < N) :
@@ -185,5 +209,8 @@ example : ∃ s ∈ spawnTable, s.kind = .threadPool ∧ s.func = "PtTebdBackend
     it; kept on an object the same run leaves 3 -/
 example : (runPool .withStmt 8 5 (some 3)).workers = 0 ∧ (runPool .stored 8 5 (some 3)).workers = 3 := by
   decide
+
+/-- `failure_reaches_caller`: its hypotheses are met (a `with`-guarded row, the bar) -/
+example : (∃ u ∈ apiTable, u.style = .withStmt) ∧ ("bar", RetVal.none) ∈ exitReturn := by decide
 
 end OQuPyVerif.Props.C19
